@@ -470,3 +470,55 @@ pub mod export {
     pub use crate::sync::atomic_dur::AtomicDuration;
     pub use crate::timeout_list::{now, TimeOutList, TimeoutHandle, TimerThread};
 }
+
+/// a plain (non-atomic) counter that is protected by a lock: every comparison and every
+/// `+=` / `-=` is reported as one event on the construction site of the counter, so that
+/// order and values of the accesses to the protected data are part of the trace
+/// (`RwLock::rlock`'s reader count)
+pub struct Counted {
+    v: usize,
+    site: &'static Location<'static>,
+}
+impl Counted {
+    #[track_caller]
+    pub const fn new(v: usize) -> Self {
+        Counted {
+            v,
+            site: Location::caller(),
+        }
+    }
+}
+impl PartialEq<usize> for Counted {
+    fn eq(&self, other: &usize) -> bool {
+        op(self.site, self as *const _ as usize, "load", 0, 0, 0, || self.v as u64) == *other as u64
+    }
+}
+impl std::ops::AddAssign<usize> for Counted {
+    fn add_assign(&mut self, x: usize) {
+        let (site, addr) = (self.site, self as *const _ as usize);
+        let mut of = false;
+        op(site, addr, "add", x as u64, 0, 0, || {
+            let old = self.v;
+            (self.v, of) = old.overflowing_add(x);
+            old as u64
+        });
+        // same behaviour as `usize += x`, but only after the event is complete
+        if of && cfg!(debug_assertions) {
+            panic!("attempt to add with overflow");
+        }
+    }
+}
+impl std::ops::SubAssign<usize> for Counted {
+    fn sub_assign(&mut self, x: usize) {
+        let (site, addr) = (self.site, self as *const _ as usize);
+        let mut of = false;
+        op(site, addr, "sub", x as u64, 0, 0, || {
+            let old = self.v;
+            (self.v, of) = old.overflowing_sub(x);
+            old as u64
+        });
+        if of && cfg!(debug_assertions) {
+            panic!("attempt to subtract with overflow");
+        }
+    }
+}
